@@ -74,15 +74,19 @@ class FaultyFile:
         h.nwrites += 1
         h.log("write", h.nwrites, len(s))
         plan = h.plan if h.active else None
+        if h.tripped and h.persistent:
+            raise make_fault(h.exc_mode, errno.ENOSPC, "No space left on device")
         if h.buffered:
             self.buf.append(s)
             return len(s)
         if plan and plan[0] == h.nwrites:
             if plan[1] == "write-fail":
                 h.fired("write-fail")
+                h.tripped = True
                 raise make_fault(h.exc_mode, errno.ENOSPC, "No space left on device")
             if plan[1] == "short-write":
                 h.fired("short-write")
+                h.tripped = True
                 self.real.write(s[: len(s) // 2])
                 self.real.flush()
                 raise make_fault(h.exc_mode, errno.ENOSPC, "No space left on device")
@@ -92,6 +96,8 @@ class FaultyFile:
 
     def flush(self):
         self.h.log("flush")
+        if self.h.tripped and self.h.persistent:
+            raise make_fault(self.h.exc_mode, errno.ENOSPC, "No space left on device")
         if not self.h.buffered:
             self.real.flush()
 
@@ -103,12 +109,17 @@ class FaultyFile:
         h.log("close")
         plan = h.plan if h.active else None
         h.counts.append(h.nwrites)
+        if h.tripped and h.persistent:
+            # the data still buffered cannot be written either; the descriptor is released, the error reported
+            self.real.close()
+            raise make_fault(h.exc_mode, errno.ENOSPC, "No space left on device")
         if h.buffered:
             data = "".join(self.buf)
             if plan and plan[0] == "close":
                 frac = {"flush-fail-nothing": 0.0, "flush-fail-half": 0.5, "flush-fail-all-but-one": None}[plan[1]]
                 cut = len(data) - 1 if frac is None else int(len(data) * frac)
                 h.fired(plan[1])
+                h.tripped = True
                 self.real.write(data[:max(cut, 0)])
                 self.real.close()
                 raise make_fault(h.exc_mode, errno.EIO, "Input/output error")
@@ -117,6 +128,7 @@ class FaultyFile:
             return
         if plan and plan[0] == "close" and plan[1] == "close-fail":
             h.fired("close-fail")
+            h.tripped = True
             self.real.close()
             raise make_fault(h.exc_mode, errno.EIO, "Input/output error")
         self.real.close()
@@ -138,6 +150,8 @@ class Hook:
         self.quiet = False
         self.exc_mode = "oserror"
         self.plan_file = None  # the plan applies to the n-th output file opened by one call (None: to every one)
+        self.persistent = False  # a full disk stays full: after the planned failure every later write/flush/close fails
+        self.tripped = False
 
     def log(self, *a):
         if not self.quiet:
@@ -202,6 +216,7 @@ def run_cli(ctx, t, which):
     hook = Hook(ctx, outdir)
     hook.buffered = buffered
     hook.exc_mode = t.pick(["oserror", "oserror", "app-error", "keyboard-interrupt", "system-exit"], "failure-is")
+    hook.persistent = t.chance(1, 3, "the-fault-persists")
     FILE_HOOK[0] = hook
     from ..seams import real_open
     try:
@@ -246,9 +261,15 @@ def run_cli(ctx, t, which):
                     if preexisting:
                         with real_open(o, "w", encoding="utf-8") as f:
                             f.write(OLD)
-                hook.plan, hook.plan_file = plan, fi
+                hook.plan, hook.plan_file, hook.tripped = plan, fi, False
                 ok = call(preexisting)
-                hook.plan, hook.plan_file = None, None
+                hook.plan, hook.plan_file, hook.tripped = None, None, False
+                stray = sorted(x for x in os.listdir(outdir) if os.path.join(outdir, x) not in outs)
+                if stray:
+                    ctx.violate("C31", "partial-file-left", f"cli/{target}/{plan[1]}/stray-file",
+                                f"after {plan[1]} in file {fi} the output directory holds {stray} besides the outputs")
+                    for x in stray:
+                        os.remove(os.path.join(outdir, x))
                 npoints += 1
                 ctx.stats["crash_points"] += 1
                 cls = f"cli/{target}/{plan[1]}/file{fi}of{nfiles}" + ("/old-file" if preexisting else "") + \
@@ -304,6 +325,7 @@ def run(ctx):
     hook.buffered = buffered
     hook.exc_mode = t.pick(["oserror", "oserror", "app-error", "keyboard-interrupt", "system-exit"], "failure-is")
     debug = t.chance(1, 3, "generator-called-with-debug")
+    hook.persistent = t.chance(1, 3, "the-fault-persists")
     custom_args = {}
     FILE_HOOK[0] = hook
     try:
@@ -368,7 +390,8 @@ def run(ctx):
             if t.chance(1, 2, "linetype"):
                 custom_args = {"linetype": t.pick(["ortho", "polyline"], "linetype-v")}
         ctx.sample = {"generator": which, "rules": nrules, "old_file": preexisting, "io": "buffered" if buffered else "unbuffered",
-                      "failure_is": hook.exc_mode, "debug": debug, "custom_args": custom_args}
+                      "failure_is": hook.exc_mode, "debug": debug, "custom_args": custom_args,
+                      "fault_persists": hook.persistent}
 
         def call(overwrite):
             gen(*args, overwrite, debug, **custom_args)
@@ -402,19 +425,30 @@ def run(ctx):
                 with real_open(out, "w", encoding="utf-8") as f:
                     f.write(OLD)
             hook.plan = plan
+            hook.tripped = False
             failed = False
             try:
                 call(preexisting)  # overwrite only when an old file is there
             except FAILURES:
                 failed = True
             hook.plan = None
+            hook.tripped = False
             ctx.ev("point", plan[0], plan[1], failed)
             ctx.stats["crash_points"] += 1
             cls = f"{which}/{plan[1]}" + ("/old-file" if preexisting else "") + \
-                ("" if hook.exc_mode == "oserror" else "/" + hook.exc_mode) + ("/debug" if debug else "")
+                ("" if hook.exc_mode == "oserror" else "/" + hook.exc_mode) + ("/debug" if debug else "") + \
+                ("/persistent" if hook.persistent else "")
             if not failed:
                 ctx.violate("C31", "fault-swallowed", cls, f"injected {plan} did not make the generator fail")
                 continue
+            stray = sorted(x for x in os.listdir(outdir) if os.path.join(outdir, x) != out)
+            if stray:
+                # e.g. a temporary file of a write-then-rename scheme that was not removed: a partial output file too
+                ctx.violate("C31", "partial-file-left", cls + "/stray-file",
+                            f"after {plan[1]} at operation {plan[0]} the output directory holds {stray} besides the "
+                            f"expected output file")
+                for x in stray:
+                    os.remove(os.path.join(outdir, x))
             if os.path.exists(out):
                 content = read(out)
                 if content not in complete:
@@ -466,5 +500,5 @@ RULES = {
 ASSUMPTIONS = {
     "C31": ["a 'complete' document is byte-identical to the fault-free output (or to the old complete file)",
             "hard process kills are not simulated (the statement speaks of a generator that fails)",
-            "stray temporary files are not judged"],
+            "any other file left in the output directory after a failed run counts as a partial output file"],
 }
